@@ -3070,10 +3070,13 @@ impl Connection {
                             // RETIRE_CONNECTION_ID might not have been previously sent if e.g. a
                             // range of connection IDs larger than the active connection ID limit
                             // was retired all at once via retire_prior_to.
-                            self.spaces[SpaceId::Data]
-                                .pending
-                                .retire_cids
-                                .push(frame.sequence);
+                            // A retransmitted NEW_CONNECTION_ID must not queue the same
+                            // retirement again
+                            let pending_retired =
+                                &mut self.spaces[SpaceId::Data].pending.retire_cids;
+                            if !pending_retired.contains(&frame.sequence) {
+                                pending_retired.push(frame.sequence);
+                            }
                             continue;
                         }
                     };
